@@ -40,7 +40,7 @@ def compare(prog, pred, events):
     if ret is None or ret.get("ok") != 1:
         return "run did not return normally: %s" % (ret,)
     for i in sorted(set(pw) | set(writes)):
-        if i <= len(prog["nodes"]) and prog["nodes"][i - 1]["kind"] in ("fb", "ite", "elem0", "elem1", "lradd", "lrmin", "lrmax"):
+        if i <= len(prog["nodes"]) and prog["nodes"][i - 1]["kind"] in ("fb", "ite", "elem0", "elem1", "lradd", "lrmin", "lrmax", "fdiv"):
             continue  # feedback sources / reference selectors are library nodes: observed through their readers
         a, b = pw.get(i, []), writes.get(i, [])
         if a != b:
@@ -52,7 +52,8 @@ def compare(prog, pred, events):
         for eid, ths in prog.get("capt", []):
             for i in ths:
                 capt[i] = eid
-        want = sorted((t, capt.get(i, -1), "neg %d" % v) for t, i, v in pe if i in capt)
+        want = sorted((t, capt.get(i, -1), "floordiv_: division by zero" if prog["nodes"][i - 1]["kind"] == "fdiv" else "neg %d" % v)
+                      for t, i, v in pe if i in capt)
         got = sorted(errs)
         if want != got:
             return "error ticks: specified %s, observed %s" % (want, got)
